@@ -4,6 +4,7 @@ import (
 	"fmt"
 	"os"
 	"runtime/pprof"
+	"time"
 )
 
 func usage() {
@@ -53,6 +54,11 @@ func main() {
 			f, _ := os.Create(p)
 			pprof.StartCPUProfile(f)
 			defer pprof.StopCPUProfile()
+			go func() { // profile runs that do not finish
+				time.Sleep(30 * time.Second)
+				pprof.StopCPUProfile()
+				os.Exit(3)
+			}()
 		}
 		jobMain(os.Args[2:])
 	case "selfcheck":
